@@ -280,7 +280,7 @@ def worker(item: Any, res: runner.Result) -> None:  # pylint: disable=too-many-l
         # "exactly that path's executions": the function's contexts equal those tealer computes for the
         # contract rewritten so that every departure from the path leads to `err` (differential)
         all_blk = harness.blocks_by_line([b for s_ in teal.subroutines.values() for b in s_.blocks] + list(teal.main.blocks))
-        cut = cut_source(lines, path, all_blk) if (TIER != "quick" or len(path) >= 2) else "skip"
+        cut = cut_source(lines, path, all_blk) if (TIER != "quick" or (len(path) >= 2 and (mode == "g2" or "rej:" in src))) else "skip"
         if cut == "skip":
             pass
         elif cut is None:
@@ -383,7 +383,7 @@ def worker(item: Any, res: runner.Result) -> None:  # pylint: disable=too-many-l
         res.count("orders_tried")
     # the same functions built through a group configuration (one contract listing all of them, in both
     # listing orders): each name must denote the function of its own dispatch path
-    if len(alone) >= 1:
+    if len(alone) >= 1 and (TIER != "quick" or mode == "g2" or "rej:" in src):
         import os  # pylint: disable=import-outside-toplevel
         from pathlib import Path  # pylint: disable=import-outside-toplevel
         from tealer.utils.command_line.common import init_tealer_from_config  # pylint: disable=import-outside-toplevel
@@ -394,8 +394,8 @@ def worker(item: Any, res: runner.Result) -> None:  # pylint: disable=too-many-l
         fpath = os.path.join(d, f"c12-{os.getpid()}.teal")
         with open(fpath, "w", encoding="utf-8") as fh:
             fh.write(src)
-        pids = sorted(alone)[:8]
-        for order_ in (pids, list(reversed(pids))) if len(pids) > 1 else (pids,):
+        pids = sorted(alone)[:8] if TIER != "quick" else sorted(alone)[:5]
+        for order_ in (pids, list(reversed(pids))) if (len(pids) > 1 and TIER != "quick") else (list(reversed(pids)),):
             fcfgs = [GroupConfigFunction("f_" + "_".join(map(str, pid)), [f"B{i}" for i in pid]) for pid in order_]
             ctype = "LogicSig" if "LogicSig" in str(teal.contract_type) else "ApprovalProgram"
             cfg = GroupConfig("g", [GroupConfigContract("c", Path(fpath), ctype, 8, [], fcfgs)], [])
